@@ -327,6 +327,66 @@ equiv!(c12_equiv_last, OtherSlice);
 equiv!(c12_lastorder, HigherSliceFirst);
 equiv!(c12_lastcache, LastThenOther);
 
+/// Three shreds of three different slices: A and B unmarked, then C marked last.  C contradicts
+/// the shreds already accepted iff one of them lies beyond it - whichever of the two it is (the
+/// lowest or the highest slice received so far).
+fn three_body() {
+    km::init_oracle(4, 12);
+    let slot = vs::any_u64();
+    let mut a = any_sh();
+    let mut b = any_sh();
+    let mut c = any_sh();
+    a.last = false;
+    b.last = false;
+    c.last = true;
+    // the marker logic does not look at payloads (c12_equiv_* vary them): fixed here
+    a.data = [1; sh::D];
+    b.data = [2; sh::D];
+    c.data = [3; sh::D];
+    vs::assume(a.slice != b.slice && a.slice != c.slice && b.slice != c.slice);
+    let va = sh::mk_validated::<0>(false, sh::mk_header(slot, a.slice, a.last), 0, a.data, &[]);
+    let vb = sh::mk_validated::<0>(false, sh::mk_header(slot, b.slice, b.last), 1, b.data, &[]);
+    let vc = sh::mk_validated::<0>(false, sh::mk_header(slot, c.slice, c.last), 2, c.data, &[]);
+    let (ca, cb) = (va.commitment(), vb.commitment());
+
+    let mut bd = BlockData::new(Slot::new(slot));
+    let mut shredder = ShredderBox::new();
+    let r1 = bd.add_shred(va, shredder.get());
+    let r2 = bd.add_shred(vb, shredder.get());
+    vcheck!(matches!(r1, Ok(Some(BlockstoreEvent::FirstShred(_)))) && matches!(r2, Ok(None)), "two unmarked shreds of different slices were not accepted");
+    vcheck!(bd.last_slice.is_none(), "a last-slice marker appeared without a marked shred");
+    let r3 = bd.add_shred(vc, shredder.get());
+
+    let beyond = a.slice > c.slice || b.slice > c.slice;
+    let equiv = is_equivocation(&r3);
+    vcheck!(equiv == beyond, "a last-slice marker is not reported as Equivocation exactly when a slice beyond it was already received");
+    vcheck!(equiv || matches!(r3, Ok(None)), "the third shred was neither accepted silently nor reported as equivocation");
+    vcheck!(stored(&bd, a.slice, 0) && cache_is(&bd, a.slice, &ca) && stored(&bd, b.slice, 1) && cache_is(&bd, b.slice, &cb), "an earlier shred or its commitment was dropped");
+    if equiv {
+        vcheck!(!stored(&bd, c.slice, 2) && bd.last_slice.is_none() && bd.commitment_cache.get(&c.slice).is_none(), "a shred rejected as equivocation left a trace");
+    } else {
+        vcheck!(stored(&bd, c.slice, 2) && bd.last_slice == Some(c.slice), "a consistent last slice was not stored / marked");
+    }
+    std::mem::forget(r1);
+    std::mem::forget(r2);
+    std::mem::forget(r3);
+    std::mem::forget(bd);
+    vcover!(equiv && a.slice < c.slice, "only the later-received higher slice lies beyond the marker");
+    vcover!(equiv && b.slice < c.slice, "only the first-received slice lies beyond the marker");
+    vcover!(equiv && a.slice > c.slice && b.slice > c.slice, "both lie beyond the marker");
+    vcover!(!equiv, "marker above everything received");
+}
+
+#[cfg_attr(kani, kani::proof)]
+#[cfg_attr(kani, kani::stub(crate::crypto::hash::hash_all, crate::crypto::merkle::kani_c12_merkle::hash_all_oracle))]
+#[cfg_attr(kani, kani::stub(log::max_level, crate::crypto::merkle::kani_c12_merkle::log_off))]
+#[cfg_attr(kani, kani::stub(crate::consensus::blockstore::slot_block_data::BlockData::try_reconstruct_slice, crate::consensus::blockstore::slot_block_data::kani_c12_bs::cut::try_reconstruct_slice))]
+#[cfg_attr(kani, kani::unwind(34))]
+#[cfg_attr(verif_replay, test)]
+fn c12_last3() {
+    three_body()
+}
+
 // ---------------------------------------------------------------------------------------
 // Native demonstration of the c12_tag finding on the real objects (real RegularShredder, real
 // Ed25519 and SHA-256, real async BlockstoreImpl): `cargo test --lib c12_demo_tag_flip` in the
